@@ -19,6 +19,8 @@ def configs(tier, seed):
     for n, K in sizes:
         for part in sup.partitions(n, 2, K):
             for branch in ("pre", "fn"):
+                if n >= 5 and branch == "fn":
+                    continue
                 cfgs.append(dict(n=n, K=K, part=list(part), branch=branch, distinct=True, zero_diag=True, positive=True, resub=True,
                                  weight=10 ** n, wstride=5 if n <= 3 else (41 if n == 4 else 2001), sub="sup"))
     # KNN-supervised: final clustering with force_prototype=True from an arbitrary clean k-NN graph state
